@@ -449,6 +449,30 @@ def gen_shared_under_root(rng):
     return name, docs
 
 
+def gen_key_order_swap(rng):
+    """samples that hold, at one position (directly and as list elements), objects with the same keys written in a different
+    order, whose value types agree position by position although the key-to-type assignment differs: the objects are
+    different types and both must be merged, whichever sample comes first"""
+    ks = rng.sample(["a", "b", "c", "d", "zeta", "alpha"], k=rng.choice([2, 2, 3]))
+    pool = [[1, 2], [True, False], [1.5, 2.5], [None, None], ["x", "x"]]
+    tys = rng.sample(pool, k=len(ks))
+    perm = ks[1:] + ks[:1]
+    o1 = {k: tys[i][0] for i, k in enumerate(ks)}
+    o2 = {k: tys[i][1] for i, k in enumerate(perm)}
+    shape = rng.choice(["field", "list", "both", "deep"])
+    if shape == "field":
+        samples = [{"o": o1, "n": 1}, {"o": o2, "n": 2}]
+    elif shape == "list":
+        samples = [{"l": [o1], "n": 1}, {"l": [o2], "n": 2}]
+    elif shape == "both":
+        samples = [{"o": o1, "l": [o2, o1]}, {"o": o2, "l": [o1]}]
+    else:
+        samples = [{"w": {"o": o1, "m": {"k": [o1]}}}, {"w": {"o": o2, "m": {"k": [o2]}}}]
+    if rng.random() < 0.4:
+        samples.append(dict(samples[0]))
+    return samples
+
+
 def gen_hidden_union_merge(rng):
     """two similar models whose shared field is a required container in one and, in the other (a list of objects), a union
     of several kinds that is also missing once: after the merge the field is a union with an Optional[Union[...]] member,
